@@ -43,7 +43,9 @@ func (k Keeper) AllocateRewards(ctx context.Context, reports []*types.Aggregate,
 		for _, r := range report.Reporters {
 			reporter, found := reportersMap[r.Reporter]
 			if found {
-				reporter.Reports++
+				// the reporter's power can differ between the aggregates of one payout:
+				// its weight is the sum of the powers it reported with
+				reporter.Power += r.Power
 			} else {
 				reporter = ReportersReportCount{
 					Power:   r.Power,
